@@ -897,9 +897,19 @@ class VmapBatchHandler:
         outer_batch_dim = self._compute_outer_batch_dim(n, axis_size)
         new_sample_shape = outer_batch_dim + self.config.sample_shape
 
+        # A site called with keyword parameters was flattened to (args, kwargs)
+        # leaves: rebuild them so the keywords reach the sampler by name
+        # instead of positionally in flattening order
+        if params.get("yes_kwargs", False):
+            args, kwargs = jtu.tree_unflatten(
+                params["in_tree"], vector_args[params["num_consts"] :]
+            )
+        else:
+            args, kwargs = vector_args, {}
+
         # Create new sampler with updated sample shape
         new_config = self.config.with_sample_shape(new_sample_shape)
-        result = create_sample_primitive(new_config)(*vector_args)
+        result = create_sample_primitive(new_config)(*args, **kwargs)
 
         # Return with appropriate output axes
         out_axes = (0 if n or axis_size else None,)
